@@ -259,8 +259,7 @@ def run(chk):
     sc, flt = _load()
     from symex import loader
 
-    chk.functions = loader.describe([flt.find_plateaus, flt._derive, flt._check_total_tolerance, flt.collapse_plateaus, flt._next_highest,
-                                     flt._is_approximate_multiple, flt.filter_in_phase])
+    chk.functions = loader.describe_exprs(['flt.find_plateaus', 'flt._derive', 'flt._check_total_tolerance', 'flt.collapse_plateaus', 'flt._next_highest', 'flt._is_approximate_multiple', 'flt.filter_in_phase'], {**globals(), **locals()})
     ns = [2, 3] if chk.tier == 'quick' else [2, 3, 4, 5]
     jobs = [(n, m, ck) for n in ns for m in sorted({1, 2, n}) for ck in ('float', 'int')]
     if chk.tier == 'quick':
